@@ -197,7 +197,10 @@ func runDSM(u1, u2 *big.Int, p ref.Pt, z *big.Int, aliased bool) string {
 	}
 	// the same scalar object for u1 and u2
 	if u1.Cmp(u2) == 0 {
-		w := new(Point).DoubleScalarMultBasepointVartime(a, a, lib.MkPTRep(p, z))
+		w := new(Point)
+		if w.DoubleScalarMultBasepointVartime(a, a, lib.MkPTRep(p, z)) != w {
+			return "did not return the receiver"
+		}
 		if m := lib.CheckPointLight(w, want); m != "" {
 			return "u1 and u2 the same object: " + m
 		}
